@@ -55,6 +55,8 @@ func (edb *EventDb) addBurnTicket(burnTicket BurnTicket) error {
 	return nil
 }
 
+// mergeAddBurnTicket keeps every ticket: tickets are append-only records and
+// several burns for one ethereum address may be finalized in one block.
 func mergeAddBurnTicket() *eventsMergerImpl[BurnTicket] {
-	return newEventsMerger[BurnTicket](TagAddBurnTicket, withUniqueEventOverwrite())
+	return newEventsMerger[BurnTicket](TagAddBurnTicket)
 }
